@@ -56,6 +56,9 @@ type Task struct {
 	// lockDepth counts the mutexes this task holds in auto-instrumented files (auto.locked/auto.unlocked
 	// marks): while it is positive the task is preempted only at lock acquisitions, never at plain yields
 	lockDepth   int
+	fuse        int                // hook points left until fuseFn is called (0: no fuse)
+	fuseFn      context.CancelFunc // the injected fault: cancels the context of the operation in flight
+	fuseFired   bool
 	stopAtLock  bool // contention mode: preempt this task right after its next lock acquisition
 	pendingDrop bool
 	wokeAt      time.Duration // simulated instant at which the last real blocking operation fired
@@ -461,6 +464,27 @@ func (s *Sim) hookPointL(t *Task, point string, window, atLock bool) bool {
 
 // ---- simhook.Handler ----
 
+// SetFuse arms (n > 0) or disarms (n == 0) the calling task's fuse: fn is called at the n-th hook point the task
+// passes from now on. Returns whether the previous fuse had fired.
+//
+//go:norace
+func (t *Task) SetFuse(n int, fn context.CancelFunc) bool {
+	fired := t.fuseFired
+	t.fuse, t.fuseFn, t.fuseFired = n, fn, false
+	return fired
+}
+
+//go:norace
+func (s *Sim) fuseTick(t *Task) {
+	if t.fuse > 0 {
+		t.fuse--
+		if t.fuse == 0 && t.fuseFn != nil {
+			t.fuseFired = true
+			t.fuseFn()
+		}
+	}
+}
+
 //go:norace
 func (s *Sim) Step(ctx context.Context, ast, env interface{}) {
 	// an aborted run unwinds every goroutine that still evaluates, token or not (deferred lisp code such
@@ -472,6 +496,7 @@ func (s *Sim) Step(ctx context.Context, ast, env interface{}) {
 	}
 	t.Steps++
 	s.TotalSteps++
+	s.fuseTick(t)
 	if s.OnStep != nil {
 		s.OnStep.OnStep(s, t, ctx, ast, env)
 	}
@@ -498,6 +523,7 @@ func (s *Sim) Yield(point string, obj interface{}) {
 	if t == nil {
 		return
 	}
+	s.fuseTick(t)
 	switch point {
 	case "auto.trylock":
 		// Code that uses TryLock behaves differently when somebody holds the lock at that instant. Tasks are
